@@ -175,6 +175,19 @@ def totalSize (seqs : List (Seq α)) : Nat := (seqs.map (·.xs.length)).sum
 
 /-! ### 3- and 4-way combined -/
 
+/-- `switch (min_seq)` of `multiway_merge_3_combined`: `merge_advance` on the two other sequences -/
+def mergeOthers3 (lt : α → α → Bool) (seqs : List (Seq α)) (minSeq overhang : Nat) :
+    Option (List (Seq α) × List α) := do
+  let (i, j) ← match minSeq with
+    | 0 => some (1, 2)
+    | 1 => some (0, 2)
+    | 2 => some (0, 1)
+    | _ => none
+  let si ← seqs[i]?
+  let sj ← seqs[j]?
+  let (a, b, o) ← mergeAdvance lt si.xs sj.xs overhang
+  pure ((seqs.set i { si with xs := a }).set j { sj with xs := b }, o)
+
 def multiwayMerge3Combined (lt : α → α → Bool) (M3 : Machine) (seqs : List (Seq α)) (size : Nat) :
     Option (List (Seq α) × List α) := do
   if seqs.length ≠ 3 then none
@@ -187,15 +200,16 @@ def multiwayMerge3Combined (lt : α → α → Bool) (M3 : Machine) (seqs : List
       let (s1, o1) ← machineMerge false lt M3 seqs ug
       pure (s1, o1, size - ug)
     | none => pure (seqs, [], size)
-  let (i, j) ← match minSeq with
-    | 0 => some (1, 2)
-    | 1 => some (0, 2)
-    | 2 => some (0, 1)
-    | _ => none
-  let si ← seqs1[i]?
-  let sj ← seqs1[j]?
-  let (a, b, o2) ← mergeAdvance lt si.xs sj.xs overhang
-  pure ((seqs1.set i { si with xs := a }).set j { sj with xs := b }, out1 ++ o2)
+  let (fin, o2) ← mergeOthers3 lt seqs1 minSeq overhang
+  pure (fin, out1 ++ o2)
+
+/-- `one_missing`: erase `min_seq`, guarded 3-way merge, insert it back, copy the iterators back -/
+def mergeOneMissing (lt : α → α → Bool) (M3 : Machine) (seqs : List (Seq α)) (minSeq overhang : Nat) :
+    Option (List (Seq α) × List α) := do
+  let sm ← seqs[minSeq]?
+  let oneMissing := seqs.eraseIdx minSeq
+  let (om, o) ← machineMerge true lt M3 oneMissing overhang
+  pure ((om.take minSeq) ++ sm :: (om.drop minSeq), o)
 
 def multiwayMerge4Combined (lt : α → α → Bool) (M3 M4 : Machine) (seqs : List (Seq α)) (size : Nat) :
     Option (List (Seq α) × List α) := do
@@ -209,10 +223,8 @@ def multiwayMerge4Combined (lt : α → α → Bool) (M3 M4 : Machine) (seqs : L
       let (s1, o1) ← machineMerge false lt M4 seqs ug
       pure (s1, o1, size - ug)
     | none => pure (seqs, [], size)
-  let sm ← seqs1[minSeq]?
-  let oneMissing := seqs1.eraseIdx minSeq
-  let (om, o2) ← machineMerge true lt M3 oneMissing overhang
-  pure ((om.take minSeq) ++ sm :: (om.drop minSeq), out1 ++ o2)
+  let (fin, o2) ← mergeOneMissing lt M3 seqs1 minSeq overhang
+  pure (fin, out1 ++ o2)
 
 /-! ### bubble -/
 
